@@ -378,6 +378,10 @@ class ExprMixin:
                     return [("val", stor.get("args", ()), st)]
                 if name == "__class__":
                     return [("val", ClassRef(o.cls), st)]
+                if name in o.cls.assigned_fields() and not o.cls.is_dataclass and st.env.get("__init_of__") != o.oid:
+                    # the real objects of this class HAVE this field (some method assigns it); a symbolic object of a contract that lacks it is an
+                    # incomplete model, and an AttributeError here would be an artefact of the check, not a behaviour of the code
+                    raise Unsupported(f"the symbolic {o.cls.name} of this contract has no field {name!r} although the class assigns it: the contract does not cover code that reads it")
                 return self.raise_ext(st, "AttributeError", name)
             if isinstance(o.cls, str) and o.cls.startswith("opaque:"):
                 return self.hooks.opaque_attr(self, st, o, name)
